@@ -25,6 +25,9 @@ pub struct QueryCase {
     pub class: u64,
     pub only_baked: bool,
     pub use_iter: bool,
+    /// read the error stream before the result stream (while workers may still be busy)
+    #[serde(default)]
+    pub errs_first: bool,
     /// interleaving choices for the worker queues
     pub choices: Vec<u16>,
     /// where the caller's own step sits among the commands (owned query), 0..=65535 mapped monotonically
@@ -115,8 +118,15 @@ pub fn check_query(c: &QueryCase) -> CaseResult {
     let plan = if c.controlled { Plan { steps, delays, gate_timeout_ms: 300 } } else { Plan { steps: vec![], delays, gate_timeout_ms: 1 } };
     let installed = sched::install(plan);
     let (ok_resp, err_resp) = if c.owned { store.owned_track_distances(&ids, c.class, c.only_baked) } else { store.foreign_track_distances(cand_tracks, c.class, c.only_baked) };
-    let raw = if c.use_iter { ok_resp.into_iter().collect::<Vec<_>>() } else { ok_resp.all() };
-    let errs = if c.use_iter { err_resp.into_iter().collect::<Vec<_>>() } else { err_resp.all() };
+    let (raw, errs) = if c.errs_first {
+        let errs = if c.use_iter { err_resp.into_iter().collect::<Vec<_>>() } else { err_resp.all() };
+        let raw = if c.use_iter { ok_resp.into_iter().collect::<Vec<_>>() } else { ok_resp.all() };
+        (raw, errs)
+    } else {
+        let raw = if c.use_iter { ok_resp.into_iter().collect::<Vec<_>>() } else { ok_resp.all() };
+        let errs = if c.use_iter { err_resp.into_iter().collect::<Vec<_>>() } else { err_resp.all() };
+        (raw, errs)
+    };
     let expired = installed.ctl.expired();
     let log = installed.ctl.log();
     drop(installed);
@@ -185,19 +195,19 @@ fn rich_desc(id: u64) -> impl Strategy<Value = TrackDesc> {
 pub fn query_case() -> impl Strategy<Value = QueryCase> {
     (
         1usize..=4,
-        proptest::collection::vec((1u64..10).prop_flat_map(rich_desc), 0..7),
+        proptest::collection::vec(prop_oneof![10 => (1u64..10), 1 => prop_oneof![Just(1u64 << 32), Just((1u64 << 32) + 1), Just((1u64 << 40) + 7), Just(u64::MAX)]].prop_flat_map(rich_desc), 0..7),
         proptest::collection::vec(prop_oneof![3 => (100u64..110), 1 => (1u64..10)].prop_flat_map(rich_desc), 0..4),
         proptest::collection::vec(1u64..10, 0..5),
         any::<bool>(),
         prop_oneof![4 => Just(0u64), 1 => Just(1u64), 1 => Just(2u64)],
         proptest::bool::weighted(0.3),
-        any::<bool>(),
+        (any::<bool>(), any::<bool>()),
         proptest::collection::vec(any::<u16>(), 16),
         any::<u16>(),
         proptest::bool::weighted(0.8),
         prop_oneof![30 => proptest::collection::vec((0u8..8, 0u16..1500), 0..3), 1 => (0u8..6, 60_000u16..65_000).prop_map(|x| vec![x])],
     )
-        .prop_map(|(shards, stored, foreign, owned_ids, owned, class, only_baked, use_iter, choices, caller_pos, controlled, delays)| {
+        .prop_map(|(shards, stored, foreign, owned_ids, owned, class, only_baked, (use_iter, errs_first), choices, caller_pos, controlled, delays)| {
             // owned ids mostly name stored tracks (every 4th one stays arbitrary = possibly missing)
             let owned_ids: Vec<u64> = owned_ids
                 .iter()
@@ -213,6 +223,7 @@ pub fn query_case() -> impl Strategy<Value = QueryCase> {
             class,
             only_baked,
             use_iter,
+            errs_first,
             choices,
             caller_pos,
             controlled,
